@@ -9,7 +9,7 @@ import contextlib
 from abc import ABC
 from collections.abc import Callable
 from time import sleep
-from typing import TYPE_CHECKING, Literal
+from typing import TYPE_CHECKING, Any, Literal
 
 from pyiron_snippets.colors import SeabornColors
 from pyiron_snippets.dotdict import DotDict
@@ -229,9 +229,14 @@ class Composite(LexicalParent[Node], HasCreator, Node, ABC):
             ),
         )
 
-    def _write_cache(self) -> None:
-        super()._write_cache()
-        self._cached_internals = self._internal_cache_key()
+    def _cache_snapshot(self) -> dict[str, Any]:
+        snapshot = super()._cache_snapshot()
+        snapshot["internals"] = self._internal_cache_key()
+        return snapshot
+
+    def _write_cache(self, snapshot: dict[str, Any]) -> None:
+        super()._write_cache(snapshot)
+        self._cached_internals = snapshot["internals"]
 
     @property
     def cache_hit(self):
